@@ -5,7 +5,7 @@
    from an input object or from a result root is numbered n+1, n+2, ... in depth-first order of first encounter
    (inputs 1..n in order, then the result roots) - the same canonicalisation is applied to the real object graph. *)
 From Coq Require Import List NArith ZArith Bool Arith.
-From BP Require Import Base.Chars Base.Sx Run.Codec Model.Heap Model.HeapMw.
+From BP Require Import Base.Chars Base.Sx Run.Codec Model.Heap Model.HeapMw Model.HeapBodies.
 Import ListNotations.
 Local Open Scope Z_scope.
 
@@ -79,6 +79,46 @@ Definition out_lib (n : nat) (r : option (heap * nat)) : sx :=
 Definition dec_consts (x : sx) : option (Z * Z * Z) :=
   match x with L [A c; A kp; A kdup] => Some (c, kp, kdup) | _ => None end.
 
+(* ------------------------------------------------------------------ shipped bodies: (kind args...) *)
+Definition as_zl (x : sx) : option (list Z) := as_list as_Z x.
+Definition as_zll (x : sx) : option (list (list Z)) := as_list as_zl x.
+Definition dec_row3 (x : sx) : option (Z * (Z * Z)) :=
+  match x with L [A a; A b; A c] => Some (a, (b, c)) | _ => None end.
+Definition dec_row2 (x : sx) : option (Z * Z) := match x with L [A a; A b] => Some (a, b) | _ => None end.
+Definition dec_rank (x : sx) : option (Z * nat) := match x with L [A a; n] => do n' <- as_nat n; Some (a, n') | _ => None end.
+Definition dec_lrow (x : sx) : option (list Z * Z) := match x with L [k; A v] => do k' <- as_zl k; Some (k', v) | _ => None end.
+Definition dec_seprow (x : sx) : option (Z * list Z) := match x with L [A a; l] => do l' <- as_zl l; Some (a, l') | _ => None end.
+Definition dec_splitrow (x : sx) : option (Z * option (list (list Z))) :=
+  match x with
+  | L [A a; A 0] => Some (a, None)
+  | L [A a; A 1; p] => do p' <- as_zll p; Some (a, Some p')
+  | _ => None
+  end.
+Definition dec_llrow (x : sx) : option (list (list Z) * Z) := match x with L [k; A v] => do k' <- as_zll k; Some (k', v) | _ => None end.
+Definition dec_latexrow (x : sx) : option (Z * option (Z * bool)) :=
+  match x with
+  | L [A a] => Some (a, None)
+  | L [A a; A n; e] => do e' <- as_bool e; Some (a, Some (n, e'))
+  | _ => None
+  end.
+Definition dec_metaval (x : sx) : option metaval :=
+  match x with L [A 0; A a] => Some (MVAtom a) | L [A 1; l] => do l' <- as_zl l; Some (MVList l') | _ => None end.
+
+Definition dec_shipped (x : sx) : option shipped :=
+  match x with
+  | L [A 0; A k; t] => do t' <- as_list dec_row3 t; Some (SRemoveEnclosing k t')
+  | L [A 1; A k; t] => do t' <- as_list dec_lrow t; Some (SAddEnclosing k t')
+  | L [A 2; A km; A k; A mo; t] => do t' <- as_list dec_row3 t; Some (SMonth km k mo t')
+  | L [A 3; t] => do t' <- as_list dec_row2 t; Some (SNormalizeFieldKeys t')
+  | L [A 4; t; d; A k; mv] => do t' <- as_list dec_rank t; do d' <- as_nat d; do mv' <- dec_metaval mv; Some (SSortFields t' d' k mv')
+  | L [A 5; nk; t] => do nk' <- as_zl nk; do t' <- as_list dec_seprow t; Some (SSeparateCoAuthors nk' t')
+  | L [A 6; nk; t] => do nk' <- as_zl nk; do t' <- as_list dec_lrow t; Some (SMergeCoAuthors nk' t')
+  | L [A 7; nk; t] => do nk' <- as_zl nk; do t' <- as_list dec_splitrow t; Some (SSplitNameParts nk' t')
+  | L [A 8; nk; t] => do nk' <- as_zl nk; do t' <- as_list dec_llrow t; Some (SMergeNameParts nk' t')
+  | L [A 9; t] => do t' <- as_list dec_latexrow t; Some (SLatex t')
+  | _ => None
+  end.
+
 Definition dec_stage (x : sx) : option mw :=
   match x with
   | L [A 0; i; A p; cs] => do i' <- as_bool i; do c <- dec_consts cs;
@@ -86,6 +126,7 @@ Definition dec_stage (x : sx) : option mw :=
   | L [A 1; i] => do i' <- as_bool i; Some (MwLibrary i')
   | L [A 2; i; bare; A k] => do i' <- as_bool i; do b <- as_list as_Z bare; Some (MwResolve i' b k)
   | L [A 3; perm] => do p <- as_list as_nat perm; Some (MwSort p)
+  | L [A 4; i; sp] => do i' <- as_bool i; do s <- dec_shipped sp; Some (MwBlock i' (shipped_body s))
   | _ => None
   end.
 
@@ -155,6 +196,15 @@ Definition run_heap (op : Z) (args : list sx) : sx :=
         match as_list dec_stage stages, dec_heap hx, as_nat l with
         | Some ms, Some h, Some lib => out_lib (length h) (run_stack deepcopy_exec ms h lib)
         | _, _, _ => sx_err
+        end
+    | _ => sx_err
+    end
+  else if op =? 167 then
+    match args with
+    | [i; sp; hx; l] =>
+        match as_bool i, dec_shipped sp, dec_heap hx, as_nat l with
+        | Some i', Some s, Some h, Some lib => out_lib (length h) (transform_block_mw deepcopy_exec i' (shipped_body s) h lib)
+        | _, _, _, _ => sx_err
         end
     | _ => sx_err
     end
